@@ -423,6 +423,9 @@ func c19Content(r *vh.Rand, nested bool) mcp.Content {
 		var sz *int64
 		if r.Bool() {
 			n := int64(r.Intn(1 << 30))
+			if r.Chance(1, 3) {
+				n = 0 // a link to an empty file: present and zero is not absent
+			}
 			sz = &n
 		}
 		return &mcp.ResourceLink{URI: "file:///" + c19String(r), Name: c19String(r), Title: r.Choose("", "t"), MIMEType: r.Choose("", "text/plain"), Size: sz, Meta: c19Meta(r), Annotations: c19Annot(r)}
@@ -735,7 +738,65 @@ func c19Values(c *vh.Case) {
 		c.Violate("value-roundtrip-altered", "%s: decode(encode(x)) re-encodes differently (%v):\n1: %s\n2: %s", k.method, err, enc, enc2)
 		return
 	}
+	// What the encoder itself drops never shows in a comparison of two encodings: an optional scalar that is
+	// present (a non-nil pointer, e.g. a size of 0) must be present and equal in the decoded value too.
+	if d := c19PresentScalars(reflect.ValueOf(k.v), reflect.ValueOf(back), k.method); d != "" {
+		c.Violate("value-roundtrip-altered", "%s: decode(encode(x)) lost an optional member that was present: %s (encoding %s)", k.method, d, enc)
+		return
+	}
 	c.Nontrivial(string(enc))
+}
+
+// c19PresentScalars walks two values of one type in parallel and reports the first pointer-to-scalar member that is
+// set in a and unset or different in b.
+func c19PresentScalars(a, b reflect.Value, path string) string {
+	if !a.IsValid() || !b.IsValid() || a.Type() != b.Type() {
+		return ""
+	}
+	switch a.Kind() {
+	case reflect.Interface:
+		if a.IsNil() || b.IsNil() {
+			return ""
+		}
+		return c19PresentScalars(a.Elem(), b.Elem(), path)
+	case reflect.Pointer:
+		if a.IsNil() {
+			return ""
+		}
+		switch a.Type().Elem().Kind() {
+		case reflect.Bool, reflect.Int, reflect.Int64, reflect.Int32, reflect.Float64, reflect.String:
+			if b.IsNil() {
+				return fmt.Sprintf("%s = %v became absent", path, a.Elem().Interface())
+			}
+			if a.Elem().Interface() != b.Elem().Interface() {
+				return fmt.Sprintf("%s = %v became %v", path, a.Elem().Interface(), b.Elem().Interface())
+			}
+			return ""
+		}
+		if b.IsNil() {
+			return ""
+		}
+		return c19PresentScalars(a.Elem(), b.Elem(), path)
+	case reflect.Struct:
+		for i := 0; i < a.NumField(); i++ {
+			if !a.Type().Field(i).IsExported() {
+				continue
+			}
+			if d := c19PresentScalars(a.Field(i), b.Field(i), path+"."+a.Type().Field(i).Name); d != "" {
+				return d
+			}
+		}
+	case reflect.Slice:
+		if a.Len() != b.Len() {
+			return ""
+		}
+		for i := 0; i < a.Len(); i++ {
+			if d := c19PresentScalars(a.Index(i), b.Index(i), fmt.Sprintf("%s[%d]", path, i)); d != "" {
+				return d
+			}
+		}
+	}
+	return ""
 }
 
 func c19Pick[T any](r *vh.Rand, full []T) []T {
